@@ -173,167 +173,179 @@ leftPad
 }
 // trailing space 
 ")).
-Eval vm_compute in ("<<<M1898>>>" ++ check (runes_of_ascii "  MetaData	len {
-i8
-_x 
-        //	t
-      `` ,  zchar[  00]
-tag 
-,
+Eval vm_compute in ("<<<M1723>>>" ++ check (runes_of_ascii "
 
-roots
+  options // @lengthOf(
 
-    u
-
-    // `tick` ""quote"" 'q'
-    ,
-
-    uint16  repeatCount, 
-msg_type tag ,
-    } packet x_y_z
-
-{ metadata
-{ i8i8
-
-chars 
-,
-	i64	chars
-,
-	}
-
-    ,	repeat 
-u16 asx 
-    // a // b
-    // a // b
-	,
-}
-packet 
-u8x
-	{@lengthOf(
-	BodyLength
-
-) @leftPad
-	( 
-    // a // b
-	  //
-  )
-
-    float  
-  /// triple
-
-	`
-`  ,
-    @calculatedFrom(
-""// no comment""	) float32  // " ++ [128512]%N ++ runes_of_ascii " emoji
-    chars	`// not a comment`
-    ,
-uint32  u128
-
-    ,@tag(
-0 
-)int16 tag ,
-leftPad	msg_type
-    ,// trailing space 
-  pack
-`tab	here` 
-, @lengthOf(
-
-repeatCount 
-// c
-		// c
-	) 
-zchar[
-4294967296
-
-    ]
-
-    len
-	,
-
-    i32	packetx  `tab	here`, calculatedFrom,metadata
-@calculatedFrom( ""// no comment"" )
-
-,
-
-    } options  {	// trailing space 
-	options1
-	= 
-42
-
-    ; i64_ 
-  // a // b
-  = char[]
-	falsey
-= 
-    // packet A { u8 x, }
-  //	t
-42 // a // b
-    Packet 
+{zchar
 =
 
-true 
-;  }
+    char[]
+Z9_ =	'0'  ; 
+} options	{ asx
+=
+char[]
 
-")).
-Eval vm_compute in ("<<<M196>>>" ++ check (runes_of_ascii "root  packet u { match //x
-T as body// c
-{
-[
-""a\""b""
-    , 3 ] :
-stringy  ""a	b"" : charz // a // b
-,
-    10:  lengthOf// " ++ [128512]%N ++ runes_of_ascii " emoji
-, ""CRC32"" : falsey
-,
-    0123456789 : _x ,
-    } , body @lengthOf( i64_ )
-, u64 chars
-`u8 x,` ,T {i64_ string_,
-    u32 metadata , zchar[ 1
-]Z9_,}
-    // c
-    ,@calculatedFrom( ""a\\"" ) rootA // " ++ [128512]%N ++ runes_of_ascii " emoji
-x_y_z
-`u8 x,` ,
-    zchar[ 007 ]body @calculatedFrom(
-""\n""
-) ,
-    @leftPad (
-'0') @rightPad
-    ( '0' )
-@calculatedFrom( """ ++ [233]%N ++ runes_of_ascii "t" ++ [233]%N ++ runes_of_ascii """
-    )	repeat uint64 A	, repeat  u8x
-    { match
-o
-as
-x
-    {
-    10	:charz
-// " ++ [27880; 37322]%N ++ runes_of_ascii "
-// " ++ [27880; 37322]%N ++ runes_of_ascii "
-,""a	b"": matchKey
-, ""x y""
+}  root
+packet
+    leftPad 
+{ T
+
+@lengthOf(
+f32a  //
+) , }	//
+  root 
+        //x
+
+	// @lengthOf(
+    packet
+calculatedFrom
+{ u
+
+    {//	t
+char[] // packet A { u8 x, }
+T
+    `" ++ [233]%N ++ runes_of_ascii "`, match
+    stringy	/// triple
+  as//	t
+  	chars 
+{ 
+[ 
+0123456789  ]
 :
-    trueish ,[ """ ++ [233]%N ++ runes_of_ascii "t" ++ [233]%N ++ runes_of_ascii """ ] : zchar,""1"" : charz // " ++ [27880; 37322]%N ++ runes_of_ascii "
-,
-[ ""a\""b"" ,
-""abc""
-, ""a\\"", ""abc"" ,
-// packet A { u8 x, }
+T,
+    // `tick` ""quote"" 'q'
+		// " ++ [27880; 37322]%N ++ runes_of_ascii "
+  }
+    ,
+uint16
+    a1
+
+    @lengthOf(x
+) ,
+	string
+
+chars
+    `two words` ,
+} ,@calculatedFrom(
+    ""x y""
+)
+char[]
+	    // " ++ [27880; 37322]%N ++ runes_of_ascii "
+    // " ++ [128512]%N ++ runes_of_ascii " emoji
+    body
+    @lengthOf(
+lengthOf 
+)
+    /// triple
+    ,
+@lengthOf(
+	A
+
+)
+	rootA
+,@lengthOf(
+i64_
+) // packet A { u8 x, }
+	repeat
+f32a  {	lengthOf 
 // " ++ [128512]%N ++ runes_of_ascii " emoji
-""""
-// packet A { u8 x, }
-/// triple
-] : u8x, } ,	},repeat falsey { rootA
-    tag ,
-    zchar[/// triple
-0 ] falsey ,  }
-    , charz a1 `{ , }`
-, } root
-packet /// triple
-Header{}
-")).
+    charz// a // b
+		`" ++ [28040; 24687; 31867; 22411]%N ++ runes_of_ascii "` ,
+	} 
+    // packet A { u8 x, }
+  ,
+
+    match
+	tag
+as 
+      //x
+  //	t
+		T
+{	[ 3] 
+:
+falsey ,
+    }
+, 
+zchar[
+
+00
+] 
+charz@lengthOf( Pad
+
+)
+
+    ,
+
+    @tag( 3 )
+lengthOf
+{
+i16 
+As , 
+}
+    ,
+}
+
+root
+packet body
+
+{
+	}")).
+Eval vm_compute in ("<<<M1678>>>" ++ check (runes_of_ascii "options {
+    StringPrefixLenType = u64;
+    ArrayPrefixLenType = u32;
+    FixedStringPadFromLeft = false;
+}
+
+packet Party {
+    zchar[7] OrderId,
+    InTail6 {
+        repeat char[1] msgKind,
+        char[3] Tail,
+        char[3] Flags,
+        i16 tag7,
+    },
+    @rightPad('0')
+    char[12] clOrdID,
+}
+
+packet Quote {
+    @leftPad('0')
+    char[11] price,
+    repeat InCount7 {
+        i32 x,
+        Party,
+        u8 Ref,
+        u8 tag7,
+    },
+    char[] seqNo,
+    Party,
+}
+
+packet Logon {
+    @rightPad('\x00')
+    char[5] Note,
+    i16 sym,
+    InPrice72 {
+        char[9] Ref,
+        zchar[1] venue,
+    },
+    char[] clOrdID,
+}
+
+root packet Reject {
+    repeat Logon,
+    @leftPad(' ')
+    char[4] seqNo,
+    zchar[5] Acct,
+    u32 x,
+    u16 f1 @lengthOf(Body),
+    match x as Body {
+        [169, 74] : Quote,
+        45 : Party,
+        7 : Logon,
+    },
+}")).
 Eval vm_compute in ("<<<M228>>>" ++ check (runes_of_ascii "packet
 //
 // " ++ [27880; 37322]%N ++ runes_of_ascii "
@@ -740,23 +752,22 @@ i64_ @lengthOf(
 ,
 }
 ")).
-Eval vm_compute in ("<<<M81>>>" ++ check (runes_of_ascii "root packet o {
-} MetaData uint8x
-    { int64 rootA  ,}
-    MetaData
-As{i32 // packet A { u8 x, }
-chars,	}packet Z9_// trailing space 
+Eval vm_compute in ("<<<M205>>>" ++ check (runes_of_ascii "  root packet
+    chars{ string T `say ""hi""`
+, @tag(
+    1  ) body { repeat o { f64 Packet @calculatedFrom( ""a\\"") ,  } , }	,
+} packet pack
+// @lengthOf(
+// a // b
 {
-@leftPad( )char[]	x_y_z,} packet tag {	@leftPad(
-// " ++ [128512]%N ++ runes_of_ascii " emoji
-// " ++ [27880; 37322]%N ++ runes_of_ascii "
-' '
-    )
-zchar[ 0 // `tick` ""quote"" 'q'
-] rootA @calculatedFrom(
-    ""a\\"" )
-    `tab	here`
-,}")).
+@tag( 4294967296 // `tick` ""quote"" 'q'
+) repeat char[]
+    Logon
+    // trailing space 
+    , repeat
+BodyLength len ,
+    // c
+    }")).
 Eval vm_compute in ("<<<M1756>>>" ++ check (runes_of_ascii "options {
     LittleEndian = false;
     StringPrefixLenType = u16;
